@@ -254,6 +254,18 @@ pub enum Consumer {
     StartAt(u64),
     /// keep the receiver alive and never poll it (an application that only wants the handle)
     Never,
+    /// an application whose event loop has other things to do: until `until_ms` it waits for
+    /// the next event only up to the next tick (every `period_ms`) and then starts a new wait,
+    /// i.e. it keeps dropping unfinished `next()` futures, as a `select!` with a ticker or a
+    /// `timeout` around `next()` does (`form` 0: `timeout_at`, 1: `select!` against a sleep,
+    /// 2: at every tick `next()` is polled exactly once — `select! { biased; e = next() => ..,
+    /// _ = ready(()) => .. }`, the "anything there? otherwise do other work" idiom).
+    /// Afterwards it drains like `Drain`.
+    Ticking {
+        period_ms: u64,
+        until_ms: u64,
+        form: u8,
+    },
 }
 
 #[derive(Clone, Debug, PartialEq, Eq, Serialize, Deserialize)]
